@@ -86,13 +86,254 @@ def _tactic_solver(timeout_ms):
     return s
 
 
-def check_valid(premises, goal, timeout_ms=10000, want_model=True, use_cvc5=True):
-    """Is (/\\ premises) => goal valid?  proved / refuted(+model) / unknown."""
+def skolemize(goal):
+    """Strip positive universal quantifiers (through Implies consequents / And): validity is preserved."""
+    if z3.is_quantifier(goal) and goal.is_forall():
+        n = goal.num_vars()
+        consts = [fresh("sk_" + goal.var_name(i).split("!")[0], goal.var_sort(i)) for i in range(n)]
+        body = z3.substitute_vars(goal.body(), *reversed(consts))
+        return skolemize(body)
+    if z3.is_implies(goal):
+        return z3.Implies(goal.arg(0), skolemize(goal.arg(1)))
+    if z3.is_and(goal):
+        return z3.And([skolemize(c) for c in goal.children()])
+    return goal
+
+
+def _products(t, acc, seen):
+    if t.get_id() in seen:
+        return
+    seen.add(t.get_id())
+    if z3.is_quantifier(t):
+        return
+    if z3.is_mul(t) and t.sort() == z3.IntSort():
+        fs = [c for c in t.children() if not z3.is_int_value(c)]
+        if len(fs) >= 2:
+            acc[t.get_id()] = fs
+    for c in t.children():
+        _products(c, acc, seen)
+
+
+def nl_hints(formulas, limit=60):
+    """Valid non-linear integer facts (product monotonicity) for products sharing a factor."""
+    acc, seen = {}, set()
+    for f in formulas:
+        _products(f, acc, seen)
+    items = []  # (common factor n, cofactor a)
+    for fs in acc.values():
+        for i, n in enumerate(fs):
+            rest = fs[:i] + fs[i + 1:]
+            a = rest[0]
+            for r in rest[1:]:
+                a = a * r
+            items.append((n, a))
+    hints = []
+    for i in range(len(items)):
+        n, a = items[i]
+        hints.append(z3.Implies(z3.And(n >= 0, a >= 0), n * a >= 0))
+        for j in range(i + 1, len(items)):
+            m, b = items[j]
+            if not n.eq(m) or a.eq(b):
+                continue
+            hints.append(z3.Implies(n >= 0, z3.And(z3.Implies(a <= b, n * a <= n * b),
+                                                   z3.Implies(a < b, n * a + n <= n * b),
+                                                   z3.Implies(b < a, n * b + n <= n * a))))
+            if len(hints) > limit:
+                return hints
+    return hints
+
+
+MUL = z3.Function("mul", z3.IntSort(), z3.IntSort(), z3.IntSort())
+
+
+def abstract_nl(t, cache):
+    """Replace non-linear integer products by the uninterpreted mul(a,b) (an over-approximation)."""
+    k = t.get_id()
+    if k in cache:
+        return cache[k]
+    if z3.is_quantifier(t):
+        n = t.num_vars()
+        cs = [z3.Const(t.var_name(i), t.var_sort(i)) for i in range(n)]
+        b2 = z3.substitute_vars(abstract_nl(t.body(), cache), *reversed(cs))
+        if t.is_forall():
+            r = z3.ForAll(cs, b2)
+        elif t.is_exists():
+            r = z3.Exists(cs, b2)
+        else:
+            r = z3.Lambda(cs, b2)
+        cache[k] = r
+        return r
+    if z3.is_var(t) or t.num_args() == 0:
+        cache[k] = t
+        return t
+    ch = [abstract_nl(c, cache) for c in t.children()]
+    if z3.is_mul(t) and t.sort() == z3.IntSort():
+        consts = [c for c in ch if z3.is_int_value(c)]
+        fs = [c for c in ch if not z3.is_int_value(c)]
+        if len(fs) >= 2:
+            r = fs[0]
+            for f in fs[1:]:
+                r = MUL(r, f)
+            for c in consts:
+                r = c * r
+            cache[k] = r
+            return r
+    r = t.decl()(*ch)
+    cache[k] = r
+    return r
+
+
+def _mul_axioms():
+    a, b, n = z3.Ints("a_ b_ n_")
+    return [
+        z3.ForAll([a, b], MUL(a, b) == MUL(b, a), patterns=[MUL(a, b)]),
+        z3.ForAll([n, a, b], z3.Implies(z3.And(n >= 0, a < b), MUL(n, a) + n <= MUL(n, b)),
+                  patterns=[z3.MultiPattern(MUL(n, a), MUL(n, b))]),
+        z3.ForAll([n, a], z3.And(z3.Implies(z3.And(n >= 0, a >= 0), MUL(n, a) >= 0),
+                                 z3.Implies(a == 0, MUL(n, a) == 0), z3.Implies(a == 1, MUL(n, a) == n),
+                                 ), patterns=[MUL(n, a)]),
+    ]
+
+
+def _mul_apps(t, acc, seen):
+    if t.get_id() in seen or z3.is_quantifier(t):
+        return
+    seen.add(t.get_id())
+    if z3.is_app(t) and t.decl().eq(MUL):
+        acc.append(t)
+    for c in t.children():
+        _mul_apps(c, acc, seen)
+
+
+def _ground_mul_hints(formulas, limit=240):
+    """Ground instances of valid laws of *: re-association of three-factor products and
+    mul(n,a) +/- mul(n,b) == mul(n, a +/- b) for products sharing a factor."""
+    apps, seen = [], set()
+    for f in formulas:
+        _mul_apps(f, apps, seen)
+    out = []
+    ids = {t.get_id() for t in apps}
+
+    def add_app(t):
+        if t.get_id() not in ids:
+            ids.add(t.get_id())
+            apps.append(t)
+
+    def is_mul_app(t):
+        return z3.is_app(t) and t.decl().eq(MUL)
+    for t in list(apps):
+        for x, y in ((t.arg(0), t.arg(1)), (t.arg(1), t.arg(0))):
+            if is_mul_app(x):  # (a*b)*y == a*(b*y) == b*(a*y)
+                a_, b_ = x.arg(0), x.arg(1)
+                for v in (MUL(a_, MUL(b_, y)), MUL(b_, MUL(a_, y))):
+                    out.append(t == v)
+                    add_app(v)
+                    add_app(v.arg(1))
+    items = []
+    for t in apps:
+        x, y = t.arg(0), t.arg(1)
+        items.append((x, y, t))
+        items.append((y, x, t))
+    for i in range(len(items)):
+        n, a, ta = items[i]
+        for j in range(i + 1, len(items)):
+            m, b, tb = items[j]
+            if not n.eq(m) or ta.eq(tb):
+                continue
+            out.append(ta + tb == MUL(n, z3.simplify(a + b)))
+            out.append(ta - tb == MUL(n, z3.simplify(a - b)))
+            if len(out) >= limit:
+                return out
+    return out
+
+
+def _skolem_consts(goal, acc, seen):
+    if goal.get_id() in seen or z3.is_quantifier(goal):
+        return
+    seen.add(goal.get_id())
+    if z3.is_const(goal) and goal.decl().kind() == z3.Z3_OP_UNINTERPRETED and goal.sort() == z3.IntSort() \
+            and str(goal).startswith("sk_"):
+        acc.append(goal)
+    for c in goal.children():
+        _skolem_consts(c, acc, seen)
+
+
+def _instances(f, consts, out, depth=0):
+    """Instances of positive universal quantifiers of premise f over the goal's skolem constants."""
+    if depth > 3 or len(out) > 64:
+        return
+    if z3.is_quantifier(f) and f.is_forall():
+        n = f.num_vars()
+        if any(f.var_sort(i) != z3.IntSort() for i in range(n)) or len(consts) ** n > 16:
+            return
+        import itertools
+        for tup in itertools.product(consts, repeat=n):
+            inst = z3.substitute_vars(f.body(), *reversed(tup))
+            out.append(inst)
+            _instances(inst, consts, out, depth + 1)
+        return
+    if z3.is_implies(f):
+        sub = []
+        _instances(f.arg(1), consts, sub, depth)
+        out.extend(z3.Implies(f.arg(0), x) for x in sub)
+    elif z3.is_and(f):
+        for c in f.children():
+            _instances(c, consts, out, depth)
+
+
+def premise_instances(premises, goal):
+    consts, seen = [], set()
+    _skolem_consts(goal, consts, seen)
+    out = []
+    if not consts or len(consts) > 4:
+        return out
+    for p in premises:
+        _instances(p, consts, out)
+    return out
+
+
+def _stage_abstract(premises, goal, timeout_ms, ground=False):
+    if ground:
+        premises = list(premises) + premise_instances(premises, goal)
+    cache = {}
+    s = _tactic_solver(timeout_ms)
+    fs = [abstract_nl(p, cache) for p in premises]
+    g = abstract_nl(goal, cache)
+    for f in fs:
+        s.add(f)
+    for ax in _mul_axioms():
+        s.add(ax)
+    if ground:
+        for h in _ground_mul_hints(fs + [g]):
+            s.add(h)
+    s.add(z3.Not(g))
+    return s.check()
+
+
+def check_valid(premises, goal, timeout_ms=10000, want_model=True, use_cvc5=True, hints=True, stages=None):
+    """Is (/\\ premises) => goal valid?  proved / refuted(+model) / unknown.
+
+    Portfolio: (1) products abstracted to an uninterpreted mul with monotonicity axioms (a proof there is a
+    proof for real multiplication), (2) native non-linear arithmetic (also the only source of counter-models),
+    (3) native with ground product hints, (4) cvc5."""
     t0 = time.time()
+    try:
+        sk_goal = skolemize(goal)
+    except z3.Z3Exception:
+        sk_goal = goal
+    if hints:
+        try:
+            for ground in (True, False):
+                r = _stage_abstract(premises, sk_goal, max(1000, timeout_ms // 5), ground)
+                if r == z3.unsat:
+                    return Result("proved", "z3-%s/abstract-mul%s" % (z3.get_version_string(), "+g" if ground else ""),
+                                  time.time() - t0)
+        except z3.Z3Exception:
+            pass
     s = _tactic_solver(timeout_ms)
     for p in premises:
         s.add(p)
-    s.add(z3.Not(goal))
+    s.add(z3.Not(sk_goal))
     try:
         r = s.check()
     except z3.Z3Exception as exc:  # pragma: no cover
@@ -104,12 +345,25 @@ def check_valid(premises, goal, timeout_ms=10000, want_model=True, use_cvc5=True
         m = s.model() if want_model else None
         return Result("refuted", "z3-%s" % z3.get_version_string(), dt, model=m)
     reason = s.reason_unknown()
+    if hints:
+        s2 = _tactic_solver(timeout_ms)
+        for p in premises:
+            s2.add(p)
+        for h in nl_hints(list(premises) + [sk_goal]):
+            s2.add(h)
+        s2.add(z3.Not(sk_goal))
+        r = s2.check()
+        if r == z3.unsat:
+            return Result("proved", "z3-%s/nl-hints" % z3.get_version_string(), time.time() - t0)
+        if r == z3.sat:
+            return Result("refuted", "z3-%s/nl-hints" % z3.get_version_string(), time.time() - t0,
+                          model=s2.model() if want_model else None)
     if use_cvc5:
         r2 = _cvc5_cli(s, timeout_ms)
         if r2 is not None:
             r2.time_s += dt
             return r2
-    return Result("unknown", "z3", dt, reason=reason)
+    return Result("unknown", "z3", time.time() - t0, reason=reason)
 
 
 def check_sat(formulas, timeout_ms=5000):
